@@ -181,22 +181,14 @@ theorem getElem?_append_left' (d : List Nat) (v code w : Nat) (h : d[code]? = so
   have := (List.getElem?_eq_some_iff.1 h).1
   rw [List.getElem?_append_left this]; exact h
 
-theorem tinv_step (d : List Nat) (t : TU) (a v : Nat) (h : TInv d t) (hlast : d[d.length - 1]? = some a)
-    (hnc : (v != a + 1 || a % 256 != 255) = true) : TInv (d ++ [v]) (tuStep t d.length v) := by
+/-- one step keeps the invariant, for every input: the run is closed before the last byte would wrap -/
+theorem tinv_step (d : List Nat) (t : TU) (v : Nat) (h : TInv d t) : TInv (d ++ [v]) (tuStep t d.length v) := by
   have hfl := flush_spec d t h
   obtain ⟨len1, sc, pend, fit, done, freeR, freeC⟩ := h
   unfold tuStep
-  by_cases hc : d.length = t.sc + t.len ∧ v = t.su + t.len
+  by_cases hc : d.length = t.sc + t.len ∧ v = t.su + t.len ∧ v % 256 ≠ 0
   · rw [if_pos hc]
-    -- the previous value is `su + len - 1`
-    have hp := pend (t.len - 1) (by omega)
-    have e : t.sc + (t.len - 1) = d.length - 1 := by omega
-    rw [e, hlast] at hp
-    injection hp with hp
-    have hv : v = a + 1 := by omega
-    have hna : a % 256 ≠ 255 := by
-      simp only [hv, bne_self_eq_false, Bool.false_or, bne_iff_ne, ne_eq] at hnc
-      exact hnc
+    obtain ⟨_, hv, hnz⟩ := hc
     refine ⟨by dsimp only; omega, by simp; omega, ?_, by dsimp only; omega, ?_, freeR, freeC⟩
     · intro k hk
       dsimp only at hk ⊢
@@ -224,30 +216,25 @@ theorem tinv_step (d : List Nat) (t : TU) (a v : Nat) (h : TInv d t) (hlast : d[
     · intro code hcode
       exact hfl.2.2 code hcode
 
-theorem tuLoop_spec : ∀ (vs d : List Nat) (t : TU) (a : Nat), TInv d t → d[d.length - 1]? = some a →
-    noCross a vs = true → TInv (d ++ vs) (tuLoop t d.length vs) := by
+theorem tuLoop_spec : ∀ (vs d : List Nat) (t : TU), TInv d t → TInv (d ++ vs) (tuLoop t d.length vs) := by
   intro vs
   induction vs with
-  | nil => intro d t a h _ _; simpa [tuLoop] using h
+  | nil => intro d t h; simpa [tuLoop] using h
   | cons v vs ih =>
-    intro d t a h hlast hnc
-    simp only [noCross, Bool.and_eq_true] at hnc
-    have hstep := tinv_step d t a v h hlast hnc.1
-    have hl : (d ++ [v])[(d ++ [v]).length - 1]? = some v := by simp
-    have := ih (d ++ [v]) (tuStep t d.length v) v hstep hl hnc.2
+    intro d t h
+    have := ih (d ++ [v]) (tuStep t d.length v) (tinv_step d t v h)
     simp only [tuLoop]
     have e : (d ++ [v]).length = d.length + 1 := by simp
     rw [e] at this
     simpa using this
 
-/-- packed level round trip: every code 0 … n reads back the destination string that was put in -/
-theorem encodeTUP_spec (vs : List Nat) (hnc : noCross 0xFFFD vs = true) (code v : Nat)
-    (hv : (0xFFFD :: vs)[code]? = some v) : tuRaw (encodeTUP vs).1 (encodeTUP vs).2 code = some (dst v) := by
-  have h := tuLoop_spec vs [0xFFFD] TU.init 0xFFFD tinv_init (by simp) hnc
+theorem encodeTUP_spec (vs : List Nat) (code v : Nat) (hv : (0xFFFD :: vs)[code]? = some v) :
+    tuRaw (encodeTUP vs).1 (encodeTUP vs).2 code = some (dst v) := by
+  have h := tuLoop_spec vs [0xFFFD] TU.init tinv_init
   have := (flush_spec _ _ h).1 code v (by simpa using hv)
   simpa [encodeTUP] using this
 
-theorem noCross_map_validity (us : List Nat) (k : Nat) (hk : k < us.length) :
+theorem packed_getElem (us : List Nat) (k : Nat) (hk : k < us.length) :
     (0xFFFD :: us.map pack)[k + 1]? = some (pack us[k]) := by
   simp [hk]
 
